@@ -360,17 +360,21 @@ func (fr *Frame) contractCall(b *ssa.BasicBlock, st *State, callee *ssa.Function
 		fr.havocAll(st)
 		fc.assumptions["contract of "+shortFn(callee)+" has no modifies clause: callers havoc the whole heap"] = true
 	} else {
-		for _, m := range c.Modifies {
-			env := &SpecEnv{fr: fr, vars: penv, now: old, old: old, pkg: fnPkg(callee)}
-			fr.havocLoc(st, m, env)
-		}
-		// allocation may advance
+		// allocation may advance - before the havoc, so that the heap versions it creates are closed with respect to
+		// the frontier AFTER the call: the callee may store objects it allocated into what it modifies. (The other
+		// order made "the field the callee modified holds an object older than the call" a ground fact, which
+		// contradicts a post-condition saying the field holds the callee's fresh result: everything after such a call
+		// was vacuously true in the query variants that carry ground closedness instances.)
 		fc.regVar(hAlloc, "Int")
 		oa := fc.get(st, hAlloc)
 		na := fc.freshConst(hAlloc, "Int")
 		fc.addFact("true", sApp(">=", na, oa))
 		fc.logWrite(hAlloc, "")
 		st.vars[hAlloc] = na
+		for _, m := range c.Modifies {
+			env := &SpecEnv{fr: fr, vars: penv, now: old, old: old, pkg: fnPkg(callee)}
+			fr.havocLoc(st, m, env)
+		}
 		fr.flushClosed(st)
 	}
 	// results
